@@ -59,6 +59,11 @@ CLAIMED = {
    text="For 7 templates exercising asset arithmetic over inputs and fees, time/slot and script-address built-ins on parameters, a parameterised asset name, a datum-less input under subtraction, indexing and nested queries, every schedule (stage orders of {args, inputs, fees, compiler-ops} with args before compiler-ops x reduce interleavings; a seeded sample in quick, all 192 in thorough) is executed from MIR next to the reference schedule and z3 shows the two fully reduced templates structurally equal for all argument/UTxO/fee values; reduce of the result is shown idempotent.",
    note="real tx3-cardano Compiler::reduce_op for the built-ins (min_utxo excluded); asset lists and UTxO sets compared as sorted multisets.",
    design="§3 C07"),
+ "C10": dict(
+   technique="symbolic execution of the MIR of entry_point, compile_mint_block, compile_witness_set and Compiler::compile (mirsym -> z3) with encoders and digests as uninterpreted functions and hash-container iteration order explored exhaustively",
+   text="Structure-level self-consistency: over 144 template shapes (network x metadata x redeemers x witness scripts x signers x references) the emitted body carries the configured network id, auxiliary-data and script-data hashes exactly when metadata / redeemers are present and taken of the very values that are emitted, no empty set-like field; for all mint/burn amounts below 2^62 the net quantity is exact and cancelling amounts leave neither a zero quantity nor an empty policy nor an empty mint map; witness-script order is independent of hash iteration order; Compiler::compile reports the hash of the body it serialises, remembers that body, and reports the size fee of the returned payload.",
+   note="byte-level well-formedness, digest values and decoder acceptance are outside (encoders/digests uninterpreted); pallas constructors are contracts.",
+   design="§3 C10"),
 }
 
 NA = {
